@@ -3,7 +3,7 @@
 
 def _rgen(**kw):
     p = {"Eps": '{"e1", "e2"}', "MaxLen": 2, "Listings": "ListingsQuick", "BadLists": "BadQuick",
-         "FailKinds": "FailQuick", "Filters": "FiltersNone"}
+         "FailKinds": "FailQuick", "Filters": "FiltersNone", "FailBodies": "BodiesOne", "Conc": "FALSE"}
     p.update(kw)
     return {"module": "Registry", "cfg": "Registry_gen.cfg", "params": p}
 
@@ -16,6 +16,7 @@ def _nontrivial(s):
 def register(PROPS, HARNESS_PKGS):
     HARNESS_PKGS["c10reg"] = "internal/adapter/registry"
     HARNESS_PKGS["c10disc"] = "internal/adapter/discovery"
+    HARNESS_PKGS["c10flt"] = "internal/adapter/filter"
     PROPS["C10"] = {
         "rule": "TBD",
         "exhaustive": False,
@@ -23,14 +24,29 @@ def register(PROPS, HARNESS_PKGS):
         "parts": [
             {
                 "name": "catalogue",
-                "mc": [{"module": "Registry", "cfg": "Registry_mc.cfg", "quick_params": {"MaxLen": 3},
-                        "thorough_params": {"MaxLen": 4}}],
-                "quick": {"gen": [_rgen()]},
+                "mc": [{"module": "Registry", "cfg": "Registry_mc.cfg", "quick_params": {"MaxLen": 3, "Conc": "TRUE"},
+                        "thorough_params": {"MaxLen": 3, "Conc": "TRUE"}}],
+                "quick": {"gen": [_rgen(), _rgen(Conc="TRUE", Eps='{"e1", "e2", "e3"}', MaxLen=1, Filters="FiltersQuick")]},
                 "thorough": {"gen": [_rgen()]},
                 "pkg": "internal/adapter/discovery", "test": "TestVerif_Catalogue",
                 "harness_dirs": ["c10disc", "c10reg"],
                 "trace": {"module": "RegistryTrace", "cfg": "Registry_trace.cfg"},
                 "nontrivial": _nontrivial,
+            },
+            {
+                "name": "filter",
+                "mc": [{"module": "GlobLookup", "cfg": "GlobLookup_mc.cfg"},
+                       {"module": "GlobLookup", "cfg": "GlobLookup_universe.cfg",
+                        "quick_params": {"Names": "NamesQ", "Configs": "ConfigsQ"},
+                        "thorough_params": {"Names": "NamesT", "Configs": "ConfigsT"}}],
+                "quick": {"gen": [{"module": "GlobLookup", "cfg": "GlobLookup_gen.cfg",
+                                   "params": {"Names": "NamesQ", "Configs": "ConfigsQ", "Strides": "{1, 11, 13}"}}]},
+                "thorough": {"gen": [{"module": "GlobLookup", "cfg": "GlobLookup_gen.cfg",
+                                      "params": {"Names": "NamesT", "Configs": "ConfigsT", "Strides": "{1, 11, 13, 17, 101}"}}]},
+                "pkg": "internal/adapter/filter", "test": "TestVerif_GlobLookup",
+                "harness_dirs": ["c10flt"],
+                "trace": {"module": "GlobLookupTrace", "cfg": "GlobLookup_trace.cfg"},
+                "nontrivial": lambda s: len(s) > 100,
             },
         ],
     }
